@@ -193,6 +193,15 @@ func buildReverseDFA(
 	revDFAConfig := dfaConfig
 	revDFAConfig.BreakAtMatch = false
 
+	// The reverse NFA cannot represent look-around assertions (^, $, \A, \z, \b, \B):
+	// nfa.Reverse turns them into plain epsilon transitions, so a reverse DFA built
+	// from it accepts strings the pattern does not and reports a match start that is
+	// too early. Without a reverse DFA the callers locate the match with the forward
+	// PikeVM, which evaluates assertions exactly.
+	if hasAnchorAssertions(re) {
+		return result
+	}
+
 	switch result.finalStrategy {
 	case UseDFA:
 		// Skip for non-greedy patterns: forward DFA always finds leftmost-longest,
